@@ -23,6 +23,7 @@ from glotaran.project.dataclass_helpers import asdict
 from glotaran.project.dataclass_helpers import fromdict
 from glotaran.project.project import Result
 from glotaran.project.scheme import Scheme
+from glotaran.utils.io import relative_posix_path
 from glotaran.utils.sanitize import sanitize_yaml
 
 if TYPE_CHECKING:
@@ -232,6 +233,12 @@ class YmlProjectIo(ProjectIoInterface):
         paths.append(scheme_path.as_posix())
 
         result_dict = asdict(result, folder=result_folder)
+        # ``result.scheme`` keeps its own ``source_path``, what got saved is the copy
+        result_dict["scheme"] = relative_posix_path(scheme.source_path, result_folder)
+        # What got saved as initial parameters are the parameters of the scheme
+        result_dict["initial_parameters"] = relative_posix_path(
+            result.scheme.parameters.source_path, result_folder
+        )
         write_dict(result_dict, file_name=result_file_path)
         paths.append(result_file_path.as_posix())
 
